@@ -34,6 +34,7 @@ type mReq struct {
 	consumed  bool
 	failed    bool // an exchange attempt on one of its codes failed before
 	cbBefore  bool
+	hidden    bool // the storage holds a code for this request that no response delivered while it was unfinished
 }
 
 type opLog struct {
@@ -93,8 +94,9 @@ func runHistory(run *ev.Run, caseIdx int, router int) {
 				m.verifier = fmt.Sprintf("plainverifier-%d-0123456789012345678901234567", r.IntN(1e6))
 				m.challenge, m.method = m.verifier, "plain"
 			}
+			mode := pick(r, "", "", "query", "fragment", "form_post", "form_post")
 			id, resp := w.Authorize(router, opdrv.AuthParams{ClientID: c.ID, RedirectURI: m.uri, ResponseType: "code", Scope: m.scopes,
-				State: "s", Nonce: m.nonce, Challenge: m.challenge, ChallengeMethod: m.method})
+				State: "s", Nonce: m.nonce, Challenge: m.challenge, ChallengeMethod: m.method, ResponseMode: mode})
 			log = append(log, opLog{"start", fmt.Sprintf("client=%s uri=%s challenge=%s", c.ID, m.uri, m.method), resp.Brief()})
 			if resp.Panic != nil {
 				violated("panic:"+resp.Panic.Site(), "handler panicked")
@@ -124,6 +126,17 @@ func runHistory(run *ev.Run, caseIdx int, router int) {
 			if resp.Panic != nil {
 				violated("panic:"+resp.Panic.Site(), "handler panicked")
 				return
+			}
+			if code == "" && !m.done && !m.consumed {
+				// a code may have been minted without being visible to the decoder (e.g. a form appended to an error
+				// redirect): the model learns it from the storage and the exchange oracle below judges its redemption
+				for _, c := range w.Store.CodesOf(m.id) {
+					if !slices.Contains(m.codes, c) {
+						m.codes = append(m.codes, c)
+						m.hidden = true
+						run.Count("ops", "callback_hidden_code_of_unfinished_request")
+					}
+				}
 			}
 			if code != "" {
 				if !m.done {
@@ -218,13 +231,20 @@ func runHistory(run *ev.Run, caseIdx int, router int) {
 			case "absent":
 				uri = ""
 			}
-			verKind := pick(r, "right", "right", "right", "wrong", "absent")
+			verKind := pick(r, "right", "right", "right", "wrong", "absent", "challenge")
 			verifier := m.verifier
 			switch verKind {
 			case "wrong":
 				verifier = "wrong-verifier-0123456789012345678901234567890123456"
 			case "absent":
 				verifier = ""
+			case "challenge":
+				// the challenge string itself: right for a plain challenge, wrong for S256
+				if m.method == "S256" {
+					verifier = m.challenge
+				} else {
+					verKind = "right"
+				}
 			}
 			if m.challenge == "" && verKind == "right" {
 				verifier = ""
@@ -258,6 +278,9 @@ func runHistory(run *ev.Run, caseIdx int, router int) {
 			}
 			if codeKind == "issued" && m.consumed {
 				refuse = append(refuse, "replay")
+			}
+			if codeKind == "issued" && !m.done {
+				refuse = append(refuse, "code-of-unfinished-request")
 			}
 			if cross {
 				refuse = append(refuse, "cross-client")
